@@ -1,18 +1,18 @@
 """C14ng (sub-check of C14): pcapng writer/reader round trip and truncation prefix"""
 CONF = {
     'interesting': ['option-pad-1', 'option-pad-2', 'option-pad-3', 'empty-string-option', 'multi-interface',
-                    'cut-in-header', 'cut-in-data', 'cut-in-options', 'cut-at-boundary', 'big-endian'],
+                    'cut-in-header', 'cut-in-data', 'cut-in-options', 'cut-at-boundary', 'big-endian', 'kept-across-reads'],
     'rule': 'Writer scripts (section info, 1-4 interfaces over 7 link types and 6 snap lengths, packets with data of every '
             'length residue and NgPacketOptions: comments incl. empty, flags, hashes, drop count, packet id, queue, verdicts; '
             'statistics, decryption-secret blocks, refused calls) are run through the real NgWriter; the file is read whole '
             '(ReadPacketDataWithOptions / ZeroCopyReadPacketDataWithOptions, 5 reader option sets) and cut at every offset '
             '(files up to ~4 KiB) or at random offsets (larger); the golden files of pcapgo/tests/{le,be} are read whole and cut. '
             'Written bytes, every packet, the terminal result and the reader state are compared with the model; the oracle checks '
-            'round trip against the writer inputs and the true-prefix rule against an independent block walker.',
+            'round trip against the writer inputs and the true-prefix rule against an independent block walker. Everything a copying call returned (data, CaptureInfo incl. AncillaryData, options) is kept without deep copy and compared with what was written, and with its rendering at read time, only after the last read (clause C14:later-read-alters-earlier; a family of scripts with 2-3 interfaces of distinct link types, all link types wanted).',
     'shrink_keep_first': 2,
     'assumptions': ['timestamps handed to the writer are UnixNano values in [0, 2^63)',
                     'option values shorter than 65536 bytes, block lengths below 2^32',
                     'bufio.Reader/Writer, io.Reader semantics by their specification; gzip not modelled'],
     'trusted_base': ['model: coq/Model/NgModel.v is a hand transcription of pcapgo/ngwrite.go, ngwrite_dsb.go, ngread.go, ngread_nrb.go, ngread_dsb.go, pcapng.go (line ranges in its header)'],
-    'explanation': 'C14_ng_roundtrip / C14_ng_prefix are proved about the model writer and reader; the correspondence run ties both to the code.',
+    'explanation': 'In the functional model the result of a copying read is a value (list Z, cinfo, popts) that no later reader step can alter, by construction; the harness checks the same of the implementation by keeping what the copying calls returned. C14_ng_roundtrip / C14_ng_prefix are proved about the model writer and reader; the correspondence run ties both to the code.',
 }
